@@ -70,13 +70,13 @@ var currentTransport *http.Transport
 
 // settle polls until nothing is left or 30 s passed.
 func settle() (n int, sample string, total int) {
-	deadline := time.Now().Add(30 * time.Second)
+	deadline := harness.Wait(30 * time.Second)
 	for {
 		if currentTransport != nil {
 			currentTransport.CloseIdleConnections()
 		}
 		n, sample, total = leftovers()
-		if n == 0 || time.Now().After(deadline) {
+		if n == 0 || deadline.Expired() {
 			return
 		}
 		time.Sleep(500 * time.Microsecond)
@@ -150,7 +150,7 @@ func runCore(sc coreScenario) (cleanup func()) {
 			if sc.FnDurUs < 0 {
 				select {
 				case <-exec.Canceled():
-				case <-time.After(20 * time.Second):
+				case <-harness.After(20 * time.Second):
 				}
 			} else {
 				select {
@@ -441,7 +441,7 @@ func judge(t harness.TB, test string, before int, scenario any, desc string) {
 		harness.Violation(t, prop, test, sig, scenario, "%s: %d goroutines with library / HTTP connection frames still alive 30s after everything returned, e.g.\n%s", desc, n, sample)
 	}
 	// unrelated goroutines (the test server's connection handlers, runtime helpers) may take a moment to go away
-	for deadline := time.Now().Add(30 * time.Second); total > before+3 && time.Now().Before(deadline); {
+	for deadline := harness.Wait(30 * time.Second); total > before+3 && !deadline.Expired(); {
 		time.Sleep(time.Millisecond)
 		_, _, total = leftovers()
 	}
